@@ -255,13 +255,13 @@ func verifyDelayPeriodPassed(ctx sdk.Context, store sdk.KVStore, proofHeight exp
 		return sdkerrors.Wrapf(ErrProcessedTimeNotFound, "processed time not found for height: %s", proofHeight)
 	}
 	currentTimestamp := uint64(ctx.BlockTime().UnixNano())
-	validTime := processedTime + delayPeriod
-	// NOTE: delay period is inclusive, so if currentTimestamp is validTime, then we return no error
-	if validTime > currentTimestamp {
+	// NOTE: delay period is inclusive, so if currentTimestamp is processedTime + delayPeriod, then we return no error
+	// (compared without adding: processedTime + delayPeriod wraps around for a very large delay period)
+	if currentTimestamp < processedTime || currentTimestamp-processedTime < delayPeriod {
 		return sdkerrors.Wrapf(
 			ErrDelayPeriodNotPassed,
-			"cannot verify packet until time: %d, current time: %d",
-			validTime, currentTimestamp,
+			"cannot verify packet until %d ns after time: %d, current time: %d",
+			delayPeriod, processedTime, currentTimestamp,
 		)
 	}
 	return nil
